@@ -10,8 +10,11 @@
    is not modified.
 
    usage : c08_driver <scratch-dir>          (CA files are written there)
-   input : "<kind> <mode> <entry> <ca> [silent_ms | announce=<name the server calls itself>]"
+   input : "<kind> <mode> <entry> <ca> [silent_ms] [announce=<name the server calls itself>] [domain=<domain of the JID>]"
+           (the JID is user@xmpp.example.com unless domain= says otherwise, e.g. 4chat.example.org)
              kind  : valid wrongname partial expired notyet untrusted selfsigned fullwild silent
+                     dvalid dprefix dsuffix dwild dpartial (good chain; SAN 4chat.example.org, 4chat.example.org.example.net,
+                     x4chat.example.org, *.example.org, 4c*.example.org)
                      announced (good chain, SAN = another name, which the server also announces as `from`)
                      chainok (root -> intermediate -> leaf) chainexp (root -> EXPIRED intermediate -> leaf)
              mode  : T (trust flag) | N (no callback) | A (callback accepts) | R (callback rejects)
@@ -60,6 +63,8 @@
 #define DOMAIN "xmpp.example.com"
 #define JID "user@" DOMAIN
 #define OTHER_NAME "evil.example.net"
+#define DIGIT_DOMAIN "4chat.example.org" /* a DNS domain whose first character is a digit */
+static char g_domain[128] = DOMAIN;      /* the domain of the JID configured for the current case */
 
 static long now_ms(void)
 {
@@ -69,8 +74,8 @@ static long now_ms(void)
 }
 
 /* ------------------------------------------------------------------ certificates */
-enum { K_VALID, K_WRONGNAME, K_PARTIAL, K_EXPIRED, K_NOTYET, K_UNTRUSTED, K_SELFSIGNED, K_FULLWILD, K_CHAINOK, K_CHAINEXP, K_ANNOUNCED, K_N };
-static const char *kind_names[] = {"valid", "wrongname", "partial", "expired", "notyet", "untrusted", "selfsigned", "fullwild", "chainok", "chainexp", "announced"};
+enum { K_VALID, K_WRONGNAME, K_PARTIAL, K_EXPIRED, K_NOTYET, K_UNTRUSTED, K_SELFSIGNED, K_FULLWILD, K_CHAINOK, K_CHAINEXP, K_ANNOUNCED, K_DVALID, K_DPREFIX, K_DSUFFIX, K_DWILD, K_DPARTIAL, K_N };
+static const char *kind_names[] = {"valid", "wrongname", "partial", "expired", "notyet", "untrusted", "selfsigned", "fullwild", "chainok", "chainexp", "announced", "dvalid", "dprefix", "dsuffix", "dwild", "dpartial"};
 static EVP_PKEY *ca_key, *ca2_key, *leaf_key[K_N];
 static X509 *ca_crt, *ca2_crt, *leaf_crt[K_N];
 static EVP_PKEY *int_key, *intx_key;
@@ -143,6 +148,12 @@ static void mint_all(const char *dir)
     chain_crt[K_CHAINOK] = int_crt;
     chain_crt[K_CHAINEXP] = intx_crt;
     /* a perfectly good certificate - for another name, which the server also announces as `from` of its stream headers */
+    /* certificates around the second domain, DIGIT_DOMAIN */
+    leaf_crt[K_DVALID] = mk_cert("leaf-dvalid", "DNS:" DIGIT_DOMAIN, leaf_key[K_DVALID], ca_crt, ca_key, -DAY, 30 * DAY, 0);
+    leaf_crt[K_DPREFIX] = mk_cert("leaf-dprefix", "DNS:" DIGIT_DOMAIN ".example.net", leaf_key[K_DPREFIX], ca_crt, ca_key, -DAY, 30 * DAY, 0);
+    leaf_crt[K_DSUFFIX] = mk_cert("leaf-dsuffix", "DNS:x" DIGIT_DOMAIN, leaf_key[K_DSUFFIX], ca_crt, ca_key, -DAY, 30 * DAY, 0);
+    leaf_crt[K_DWILD] = mk_cert("leaf-dwild", "DNS:*.example.org", leaf_key[K_DWILD], ca_crt, ca_key, -DAY, 30 * DAY, 0);
+    leaf_crt[K_DPARTIAL] = mk_cert("leaf-dpartial", "DNS:4c*.example.org", leaf_key[K_DPARTIAL], ca_crt, ca_key, -DAY, 30 * DAY, 0);
     leaf_crt[K_ANNOUNCED] = mk_cert("leaf-announced", "DNS:" OTHER_NAME, leaf_key[K_ANNOUNCED], ca_crt, ca_key, -DAY, 30 * DAY, 0);
 
     mkdir(dir, 0755);
@@ -227,7 +238,7 @@ int __wrap_SSL_connect(SSL *ssl)
         obs.orig_cb = SSL_get_verify_callback(ssl);
         obs.has_cb = obs.orig_cb != NULL;
         obs.hostflags = X509_VERIFY_PARAM_get_hostflags(param);
-        obs.host_match = host ? (strcmp(host, DOMAIN) == 0) : -1;
+        obs.host_match = host ? (strcmp(host, g_domain) == 0) : -1;
         snprintf(obs.host, sizeof obs.host, "%s", host ? host : "-");
         SSL_set_verify(ssl, obs.mode, log_verify);
         obs.t_first = now_ms();
@@ -317,6 +328,7 @@ static void conn_handler(xmpp_conn_t *conn, xmpp_conn_event_t status, int error,
 typedef struct {
     int lfd, legacy, silent_ms, kind;
     char from[128]; /* what the server calls itself in its stream headers */
+    char domain[128];
     int hs; /* -1 not attempted, 0 failed, 1 ok */
     unsigned char clr[8192]; size_t nclr;   /* plaintext bytes received before the TLS handshake */
     unsigned char enc[8192]; size_t nenc;   /* application bytes received over TLS */
@@ -426,8 +438,12 @@ static void *server_main(void *arg)
     if (!srv_until(fd, ssl, s->enc, &s->nenc, sizeof s->enc, &mark, "<stream:stream", ">")) goto out;
     srv_hdr(fd, ssl, s->from, "<stream:features><bind xmlns='urn:ietf:params:xml:ns:xmpp-bind'/></stream:features>");
     if (!srv_until(fd, ssl, s->enc, &s->nenc, sizeof s->enc, &mark, "<iq", "</iq>")) goto out;
-    srv_send(fd, ssl, "<iq type='result' id='_xmpp_bind1'><bind xmlns='urn:ietf:params:xml:ns:xmpp-bind'><jid>" JID
-                      "/r</jid></bind></iq>");
+    {
+        char b[512];
+        snprintf(b, sizeof b, "<iq type='result' id='_xmpp_bind1'><bind xmlns='urn:ietf:params:xml:ns:xmpp-bind'><jid>user@%s"
+                              "/r</jid></bind></iq>", s->domain);
+        srv_send(fd, ssl, b);
+    }
     if (!srv_until(fd, ssl, s->enc, &s->nenc, sizeof s->enc, &mark, "</stream:stream", ">")) goto out;
     srv_send(fd, ssl, "</stream:stream>");
     SSL_shutdown(ssl);
@@ -511,11 +527,17 @@ int main(int argc, char **argv)
         char tc[64], tt[64], tr[64], w0[64], w1[64];
 
         if (!line[0] || line[0] == '#') { puts(""); continue; }
-        char opt_s[160] = "", announce[128] = DOMAIN;
-        if (sscanf(line, "%31s %31s %31s %31s %159s", kind_s, mode_s, entry_s, ca_s, opt_s) < 4) { puts("bad-input"); fflush(stdout); continue; }
-        if (!strncmp(opt_s, "announce=", 9)) snprintf(announce, sizeof announce, "%s", opt_s + 9);
-        else silent_ms = atoi(opt_s);
-        if (!strcmp(kind_s, "announced") && strncmp(opt_s, "announce=", 9)) snprintf(announce, sizeof announce, "%s", OTHER_NAME);
+        char opt_s[3][160] = {"", "", ""}, announce[128] = "", jid[160];
+        int oi;
+        if (sscanf(line, "%31s %31s %31s %31s %159s %159s %159s", kind_s, mode_s, entry_s, ca_s, opt_s[0], opt_s[1], opt_s[2]) < 4) { puts("bad-input"); fflush(stdout); continue; }
+        snprintf(g_domain, sizeof g_domain, "%s", DOMAIN);
+        for (oi = 0; oi < 3; oi++) {
+            if (!strncmp(opt_s[oi], "announce=", 9)) snprintf(announce, sizeof announce, "%s", opt_s[oi] + 9);
+            else if (!strncmp(opt_s[oi], "domain=", 7)) snprintf(g_domain, sizeof g_domain, "%s", opt_s[oi] + 7);
+            else if (opt_s[oi][0]) silent_ms = atoi(opt_s[oi]);
+        }
+        if (!announce[0]) snprintf(announce, sizeof announce, "%s", !strcmp(kind_s, "announced") ? OTHER_NAME : g_domain);
+        snprintf(jid, sizeof jid, "user@%s", g_domain);
         for (k = 0; k < K_N; k++) if (!strcmp(kind_s, kind_names[k])) kind = k;
         if (!strcmp(kind_s, "silent")) { kind = K_VALID; if (silent_ms <= 0) silent_ms = 1000; } else silent_ms = 0;
         if (kind < 0) { puts("bad-input"); fflush(stdout); continue; }
@@ -526,10 +548,11 @@ int main(int argc, char **argv)
         srv = calloc(1, sizeof *srv);
         srv->lfd = lfd; srv->legacy = !strncmp(entry_s, "legacy", 6); srv->silent_ms = silent_ms; srv->kind = kind; srv->hs = -1;
         snprintf(srv->from, sizeof srv->from, "%s", announce);
+        snprintf(srv->domain, sizeof srv->domain, "%s", g_domain);
         pthread_create(&th, NULL, server_main, srv);
 
         conn = xmpp_conn_new(ctx);
-        xmpp_conn_set_jid(conn, JID);
+        xmpp_conn_set_jid(conn, jid);
         xmpp_conn_set_pass(conn, "secret");
         if (mode_s[0] == 'T') flags |= XMPP_CONN_FLAG_TRUST_TLS;
         if (srv->legacy) flags |= XMPP_CONN_FLAG_LEGACY_SSL;
